@@ -256,6 +256,8 @@ def check_block(block, effects_override=None):
 
     states = {}   # pc -> {(idxvals, region entries): (env, bnd, val)}
     state = {}    # pc -> first state seen
+    env_at = {}   # pc -> (environment depth, predecessor) of the first path that reached it
+    env_reported = set()
     nh = len(handlers)
 
     def regions_at(pc):
@@ -289,6 +291,16 @@ def check_block(block, effects_override=None):
         hent = tuple(sorted(hd.items()))
         abrupt = any(v not in (None, 0) for v in idx)
         special = abrupt or tail
+        # Binding locators are absolute positions in the environment chain, so the environment depth at an
+        # instruction cannot depend on the path: unlike the value stack (parked return values) it must agree for
+        # normal, abrupt (pending break / continue / return inside finally code) and tail paths alike.
+        e0 = env_at.get(pc)
+        if e0 is None:
+            env_at[pc] = (env, frm)
+        elif e0[0] != env and not env_reported:   # the first disagreement of a block; later ones follow from it
+            env_reported.add(pc)
+            F.append(Finding("merge-env", pc, "paths reach this instruction with environment depths %d (from %s) and %d (from %s)%s" % (
+                e0[0], e0[1], env, frm, " while a break/continue/return is pending" if special else "")))
         key = (idx, hent, (bnd, val, tail) if special else None)
         seen = states.setdefault(pc, {})
         if key in seen:
